@@ -33,22 +33,58 @@ struct Params {
     /// what has not arrived by the end of the action string arrives only once the final recv call is
     /// parked (it then depends on being woken through the waker of THAT call)
     late: bool,
+    /// 0 = the peer sends its two messages only. Otherwise an item that is NOT a message of the shape the socket type
+    /// expects stands in front of each of them: 1 = a one-frame message (for REQ/REP: no delimiter), 2 = a two-frame
+    /// message whose first frame is not empty, 3 = a command (a second READY). `cut` then selects the chunking: 1 =
+    /// [junk][m1 junk m2], 2 = [junk m1][junk m2], 3 = [junk m1 junk][m2]. What the library makes of such items is not
+    /// judged; the oracle is differential: with the X actions (drops of the pending recv) the completed calls must
+    /// return exactly what they return with the X actions removed, i.e. as if the abandoned calls had not been made.
+    junk: u8,
 }
 
 fn scenario(pr: &Params) -> Verdict {
+    if pr.junk == 0 {
+        return e3::finish(scenario_run(pr, None).0);
+    }
+    let mut reference = pr.clone();
+    reference.actions = pr.actions.replace('X', "");
+    let (_, want) = scenario_run(&reference, Some(None));
+    e3::finish(scenario_run(pr, Some(Some(want))).0)
+}
+
+/// `differential`: None = compare with the fixed expectation; Some(None) = reference run, nothing compared;
+/// Some(Some(want)) = compare the completed calls' results with `want`
+fn scenario_run(pr: &Params, differential: Option<Option<Vec<String>>>) -> (Verdict, Vec<String>) {
     world::reset(world::WorldCfg { nested_env: false, yields: false, select: false, policy: 0, coop: false });
     let ty = pr.ty;
-    let (stream, _wire, expect) = crate::c02::socket_stream(ty);
+    let (stream, wire, expect) = crate::c02::socket_stream(ty);
     let hs_len = rc::handshake(ty.peer_type(), Some(b"P1")).len();
     let c = e3::raw_conn("p");
     c.send(&stream[..hs_len]);
     let region = &stream[hs_len..];
-    let n_chunks = if pr.cut == 0 || pr.cut >= region.len() {
+    let n_chunks = if pr.junk > 0 {
+        let junk: Vec<u8> = match pr.junk {
+            1 => rc::encode_message(&[b"stray".to_vec()]),
+            2 => rc::encode_message(&[b"stray".to_vec(), b"y".to_vec()]),
+            _ => rc::encode_ready(ty.peer_type(), None),
+        };
+        let (m1, m2) = (rc::encode_message(&wire[0]), rc::encode_message(&wire[1]));
+        let parts: [&[u8]; 4] = [&junk, &m1, &junk, &m2];
+        let first_n = pr.cut.clamp(1, 3);
+        c.gate(world::MANUAL_GATE);
+        c.send(&parts[..first_n].concat());
+        c.gate(world::MANUAL_GATE);
+        c.send(&parts[first_n..].concat());
+        2
+    } else if pr.cut == 0 || pr.cut >= region.len() {
+        c.gate(world::MANUAL_GATE);
         c.send(region);
         1
     } else {
-        c.gate("go");
+        // (each chunk behind a gate of its own that only a D action opens: the scheduler never delivers them)
+        c.gate(world::MANUAL_GATE);
         c.send(&region[..pr.cut]);
+        c.gate(world::MANUAL_GATE);
         c.send(&region[pr.cut..]);
         2
     };
@@ -163,6 +199,9 @@ fn scenario(pr: &Params) -> Verdict {
         // everything arrives now (or, in the late variant, while the next recv is parked); recv to completion
         if !late {
             while world::force_deliver(to_lib) {}
+        } else {
+            // from here on the scheduler delivers what is left - which it can only do once this actor is parked
+            world::release_manual_gates(to_lib);
         }
         for _ in 0..3 {
             if ty == Ty::Req && !req_outstanding {
@@ -194,7 +233,11 @@ fn scenario(pr: &Params) -> Verdict {
     let end = world::run(e3::HORIZON);
     let mut v = Verdict::default();
     v.truncated = end != world::RunEnd::Quiescent;
-    let what = format!("{} socket, peer's two messages cut at offset {}, actions {:?} (P poll recv once, D next chunk arrives, X drop the pending recv){}", ty.name(), pr.cut, pr.actions, if pr.late { ", the rest arriving only while the final recv is parked" } else { "" });
+    let what = if pr.junk > 0 {
+        format!("{} socket, the peer sends {} in front of each of its two messages (chunking {}), actions {:?} (P poll recv once, D next chunk arrives, X drop the pending recv){}", ty.name(), ["", "a stray one-frame message", "a stray two-frame message", "a second READY command"][pr.junk as usize % 4], pr.cut, pr.actions, if pr.late { ", the rest arriving only while the final recv is parked" } else { "" })
+    } else {
+        format!("{} socket, peer's two messages cut at offset {}, actions {:?} (P poll recv once, D next chunk arrives, X drop the pending recv){}", ty.name(), pr.cut, pr.actions, if pr.late { ", the rest arriving only while the final recv is parked" } else { "" })
+    };
     for p in world::panics() {
         v.violate("panic", format!("{}: {}", what, p));
     }
@@ -205,7 +248,11 @@ fn scenario(pr: &Params) -> Verdict {
         v.violate(c.clone(), format!("{}: {}", what, m));
     }
     let got = results.borrow().clone();
-    let want: Vec<String> = expect.iter().map(|m| format!("Ok{}", rc::show_frames(m))).collect();
+    let want: Vec<String> = match &differential {
+        None => expect.iter().map(|m| format!("Ok{}", rc::show_frames(m))).collect(),
+        Some(None) => got.clone(),
+        Some(Some(w)) => w.clone(),
+    };
     if viol.borrow().is_empty() && world::panics().is_empty() && !v.truncated && got != want {
         let class = if got.len() < want.len() {
             "message-lost-after-abandoned-recv"
@@ -214,11 +261,11 @@ fn scenario(pr: &Params) -> Verdict {
         } else {
             "messages-differ-after-abandoned-recv"
         };
-        v.violate(format!("{}/{}", class, if ty == Ty::Req { "REQ" } else { "fair-queue-types" }), format!("{}: recv calls returned {:?}, the peer sent {:?}", what, got, want));
+        v.violate(format!("{}/{}", class, if ty == Ty::Req { "REQ" } else { "fair-queue-types" }), format!("{}: recv calls returned {:?}, {} {:?}", what, got, if differential.is_some() { "with the drops of the pending recv removed from the same history they return" } else { "the peer sent" }, want));
     }
     v.outcome_hash = rc::fnv(got.join("|").as_bytes()) ^ rc::fnv(e3::canon_log().join("|").as_bytes());
     v.trivial = !world::log_snapshot().iter().any(|l| l.contains("dropped while pending"));
-    e3::finish(v)
+    (v, got)
 }
 
 /// REP protocol state: a request has been received and its reply is owed; recv futures are then
@@ -390,7 +437,7 @@ fn burst_scenario(ty: Ty, n: usize, k: usize) -> Verdict {
 }
 
 fn pj(p: &Params) -> Value {
-    json!({"type": p.ty.name(), "cut": p.cut, "actions": p.actions, "late": p.late})
+    json!({"type": p.ty.name(), "cut": p.cut, "actions": p.actions, "late": p.late, "junk": p.junk})
 }
 
 fn pf(v: &Value) -> Option<Params> {
@@ -399,6 +446,7 @@ fn pf(v: &Value) -> Option<Params> {
         cut: v["cut"].as_u64()? as usize,
         actions: v["actions"].as_str()?.to_string(),
         late: v["late"].as_bool().unwrap_or(false),
+        junk: v["junk"].as_u64().unwrap_or(0) as u8,
     })
 }
 
@@ -468,10 +516,29 @@ pub fn run(tier: Tier, replay: Option<String>) -> i32 {
                     if late && a.matches('D').count() >= if cut == 0 { 1 } else { 2 } {
                         continue;
                     }
-                    let pr = Params { ty, cut, actions: a.clone(), late };
+                    let pr = Params { ty, cut, actions: a.clone(), late, junk: 0 };
                     let pr2 = pr.clone();
                     n += 1;
                     jobs.push(e3::job(format!("C14/{}/{}/{}/{}", ty.name(), cut, a, late), pj(&pr), 0, 4, move || scenario(&pr2)));
+                }
+            }
+        }
+    }
+    // stray items in front of the messages; differential oracle (same history without the drops)
+    let with_x: Vec<&String> = two.iter().filter(|a| a.contains('X')).collect();
+    for ty in [Ty::Req, Ty::Rep, Ty::Dealer, Ty::Pull, Ty::Router, Ty::Sub, Ty::XPub] {
+        for junk in 1..=3u8 {
+            for cut in 1..=3usize {
+                for a in &with_x {
+                    for late in [false, true] {
+                        if late && a.matches('D').count() >= 2 {
+                            continue;
+                        }
+                        let pr = Params { ty, cut, actions: (*a).clone(), late, junk };
+                        let pr2 = pr.clone();
+                        n += 1;
+                        jobs.push(e3::job(format!("C14/{}/junk{}/{}/{}/{}", ty.name(), junk, cut, a, late), pj(&pr), 0, 4, move || scenario(&pr2)));
+                    }
                 }
             }
         }
